@@ -128,6 +128,10 @@ fn build_incoming_hierarchy_item(
     let root_chunk = tree.get_chunk_node();
     let document = db.get_vfs().get_document(&file_id)?;
     let pos = document.get_offset(range.start.line as usize, range.start.character as usize)?;
+    if pos > root_chunk.syntax().text_range().end() {
+        return None;
+    }
+
     let token = match root_chunk.syntax().token_at_offset(pos) {
         TokenAtOffset::Single(token) => token,
         TokenAtOffset::Between(left, right) => {
